@@ -7,8 +7,10 @@ from checks import wlfam
 def lists(rng, n):
     pool = wlfam.CAPITALISABLE + wlfam.UNCAP + ["Polish", "polish", "One", "Ice-Cream", "Ice-cream", "ice-Cream", "O'Neil", "Größe", "usa", "Usa", "mcDonald",
                                                 "McDonald", "Mcdonald", "ǆ", "ǅ", "Ǆ", "ß", "ǰ", "new york", "New York", "New york", "a", "A", "é", "É", "é́",
-                                                "pad ", "pad", " pad", "line\r", "line", "\ttab", "nb\u00a0", "nb", "wide\u3000", "iPhone", "IPhone", "pOLISH", "POLISH"]
-    out = [["polish", "Polish", "one"], ["Polish", "polish"], ["usa", "USA"], ["USA", "usa"], ["mcDonald", "McDonald"], ["one"], ["One"],
+                                                "o’brien", "O’brien", "O’Brien", "paral·lel", "Paral·Lel", "¿qué", "¿Qué", "pad ", "pad", " pad", "line\r", "line", "\ttab", "nb\u00a0", "nb", "wide\u3000", "iPhone", "IPhone", "pOLISH", "POLISH"]
+    out = [["o’brien", "O’Brien", "one"], ["O’Brien", "o’brien"], ["paral·lel", "Paral·Lel"], ["¿qué", "¿Qué", "que"],
+           ["alpha", "alpha ", "alpha\r", "beta"], [" alpha", "alpha"], ["o'neil", "O'neil", "O'Neil"], ["e-mail", "e-Mail"], ["e-mail", "e-Mail", "E-Mail"],
+           ["polish", "Polish", "one"], ["Polish", "polish"], ["usa", "USA"], ["USA", "usa"], ["mcDonald", "McDonald"], ["one"], ["One"],
            ["ice-cream", "Ice-Cream", "Ice-cream"], ["new york", "New York", "New york"], ["a", "A", "a", "A"], ["ǆ", "ǅ", "Ǆ"],
            ["ǆemal", "ǅemal", "one"], ["ᾀδω", "ᾈδω"], ["ⅷ", "Ⅷ", "two"], ["ab", "c"], ["a", "bc"], ["ab", "c"], ["zaz", "a", "zb"], ["za", "za", "zb"],
            ["Polishpo", "lish", "five"], ["Polish", "polish", "five"], ["us", "US"], ["US", "us"],
